@@ -48,6 +48,65 @@ def parseEv (t : String) : Option Ev :=
 def parseEvs (s : String) : Option (List Ev) :=
   if s = "_" then some [] else (s.splitOn ",").mapM parseEv
 
+/-! C36 with resolver errors: additionally `I<b>:<errs>` = idle callback with the error list
+`errs` (`.`-separated: `e<n>` an error, `c` context.Canceled, `n` a nil entry; empty = no entries). -/
+def parseRErr (t : String) : Option (Option RErr) :=
+  match t.toList with
+  | ['n'] => some none
+  | ['c'] => some (some .canceled)
+  | 'e' :: rest => (String.ofList rest).toNat?.map (fun n => some (RErr.other n))
+  | _ => none
+
+def parseEvE (t : String) : Option EvE :=
+  match t.splitOn ":" with
+  | [h, errs] =>
+    match h.toList with
+    | ['I', b] =>
+      if b = '0' || b = '1' then
+        (if errs = "" then some [] else (errs.splitOn ".").mapM parseRErr).map (EvE.idleErrs (b = '1'))
+      else none
+    | _ => none
+  | [_] => (parseEv t).map EvE.ev
+  | _ => none
+
+def parseEvEs (s : String) : Option (List EvE) :=
+  if s = "_" then some [] else (s.splitOn ",").mapM parseEvE
+
+def showEnd : Option RErr → String
+  | none => "none"
+  | some .canceled => "c"
+  | some (.other n) => s!"e{n}"
+
+/-- `serverIdCb`: `none`; `pfx:<hex>` prepends; `fail` always fails; `failon:<hex>` fails on that
+server ID and is the identity otherwise; `const:<hex>` replaces. -/
+def cbOf (s : String) : Option (Option (Bytes → Option Bytes)) :=
+  match s.splitOn ":" with
+  | ["none"] => some none
+  | ["fail"] => some (some fun _ => none)
+  | ["pfx", h] => (unhex h).map fun p => some fun x => some (p ++ x)
+  | ["failon", h] => (unhex h).map fun p => some fun x => if x = p then none else some x
+  | ["const", h] => (unhex h).map fun p => some fun _ => some p
+  | _ => none
+
+def showPlaced : Option (Bytes × Bytes) → String
+  | none => "err"
+  | some d => s!"ok sid={hexOrDash d.1} srv={hexOrDash d.2}"
+
+/-- `sid:srv,sid:srv` (hex), `_` = none. -/
+def parsePairs (s : String) : Option (List (Bytes × Bytes)) :=
+  if s = "_" then some [] else
+  (s.splitOn ",").mapM fun t =>
+    match t.splitOn ":" with
+    | [a, b] => do some (← unhex a, ← unhex b)
+    | _ => none
+
+def showCall : CallOut → String
+  | .ok sid srv => s!"ok sid={hexOrDash sid} srv={hexOrDash srv}"
+  | .errDecode => "err decode"
+  | .errInvalid => "err invalid"
+  | .errServerId => "err serverid"
+  | .errNoServer => "err noserver"
+
 def showMsg (m : Msg) : String := s!"{bit m.idle}{bit m.exist}{bit m.removed}"
 
 def showMsgs (l : List Msg) : String := if l.isEmpty then "_" else ",".intercalate (l.map showMsg)
@@ -111,7 +170,39 @@ def isEq (dir : String) (a b : List String) : Option Bool :=
     let x : GetPeer := ⟨← unhex a1⟩
     let y : GetPeer := ⟨← unhex b1⟩
     some (x.isEquivalent y)
+  | "HandleSignalPeer", [a1, a2], [b1, b2] => do
+    -- the session is given by the identity of the Go object (0 = nil interface)
+    let x : HandleSignalPeer Nat := ⟨← unhex a1, ← a2.toNat?⟩
+    let y : HandleSignalPeer Nat := ⟨← unhex b1, ← b2.toNat?⟩
+    some (x.isEquivalent y)
+  | "BuildChannelSubscription", [a1, a2], [b1, b2] => do
+    let x : BuildChannelSubscription Nat := ⟨← unhex a1, ← a2.toNat?⟩
+    let y : BuildChannelSubscription Nat := ⟨← unhex b1, ← b2.toNat?⟩
+    some (x.isEquivalent y)
+  | "DiscoverRoutes", [a1, a2, a3], [b1, b2, b3] => do
+    let x : DiscoverRoutes := ⟨← unhex a1, ← unhex a2, ← unhex a3⟩
+    let y : DiscoverRoutes := ⟨← unhex b1, ← unhex b2, ← unhex b3⟩
+    some (x.isEquivalent y)
   | _, _, _ => none
+
+/-- A directive of any type (URL by its `String()`, session / private key by object identity). -/
+def anyOf (dir : String) (a : List String) : Option (AnyDirective Bytes Nat Nat) :=
+  match dir, a with
+  | "SolicitProtocol", [a1, a2, a3, a4] => do some (.solicitProtocol ⟨← unhex a1, ← unhex a2, ← unhex a3, ← a4.toNat?⟩)
+  | "EstablishLinkWithPeer", [a1, a2] => do some (.establishLinkWithPeer ⟨← unhex a1, ← unhex a2⟩)
+  | "HandleMountedStream", [a1, a2, a3] => do some (.handleMountedStream ⟨← unhex a1, ← unhex a2, ← unhex a3⟩)
+  | "DialTptAddr", [a1, a2, a3] => do some (.dialTptAddr ⟨← dialerOf a1, ← unhex a2, ← unhex a3⟩)
+  | "LookupTptAddr", [a1] => do some (.lookupTptAddr ⟨← unhex a1⟩)
+  | "LookupTransport", [a1, a2] => do some (.lookupTransport ⟨← unhex a1, ← a2.toNat?⟩)
+  | "LookupRpcService", [a1, a2] => do some (.lookupRpcService ⟨← unhex a1, ← unhex a2⟩)
+  | "LookupRpcClient", [a1, a2] => do some (.lookupRpcClient ⟨← unhex a1, ← unhex a2⟩)
+  | "LookupHTTPHandler", [a1, a2, a3] => do some (.lookupHTTPHandler ⟨← unhex a1, ← unhex a2, ← unhex a3⟩)
+  | "SignalPeer", [a1, a2, a3] => do some (.signalPeer ⟨← unhex a1, ← unhex a2, ← unhex a3⟩)
+  | "GetPeer", [a1] => do some (.getPeer ⟨← unhex a1⟩)
+  | "HandleSignalPeer", [a1, a2] => do some (.handleSignalPeer ⟨← unhex a1, ← a2.toNat?⟩)
+  | "BuildChannelSubscription", [a1, a2] => do some (.buildChannelSubscription ⟨← unhex a1, ← a2.toNat?⟩)
+  | "DiscoverRoutes", [a1, a2, a3] => do some (.discoverRoutes ⟨← unhex a1, ← unhex a2, ← unhex a3⟩)
+  | _, _ => none
 
 /-- Oracle discipline: an answer is used only for exactly the subject it was asked about; the
 model asks (`need …`) exactly when its outcome depends on the answer. -/
@@ -201,6 +292,25 @@ def handle (op : String) (args : List String) : Option String :=
     let evs ← (kv args "evs").bind parseEvs
     let r := run evs
     some s!"ok msgs={showMsgs r.2} n={r.1.vals.length} idle={bit r.1.resIdle}"
+  | "runsync" => do
+    let evs ← (kv args "evs").bind parseEvEs
+    let r := runSync {} evs
+    some s!"ok msgs={showMsgs r.1} end={showEnd r.2}"
+  | "placed" => do
+    let r : Req := ⟨← kvBytes args "sid", ← kvBytes args "srv"⟩
+    let cb ← (kv args "cb").bind cbOf
+    -- `bus=1` (the real controller bus instead of the scripted one) makes no difference to the model
+    some (showPlaced (lookupPlaced cb r))
+  | "reqdir" => do
+    let r : Req := ⟨← kvBytes args "sid", ← kvBytes args "srv"⟩
+    let d := r.toDirective
+    let back := requestFromDirective d
+    some s!"ok dsid={hexOrDash d.1} dsrv={hexOrDash d.2} rsid={hexOrDash back.serviceId} rsrv={hexOrDash back.serverId} v={bit r.validate}"
+  | "call" => do
+    let cid ← kvBytes args "cid"
+    let cb ← (kv args "cb").bind cbOf
+    let prov ← (kv args "prov").bind parsePairs
+    some (showCall (callRpcService cb (fun a b => prov.contains (a, b)) cid))
   | "cidenc" => do
     let r : Req := ⟨← kvBytes args "sid", ← kvBytes args "srv"⟩
     some ("ok " ++ hexOrDash (marshalComponentID r))
@@ -216,6 +326,11 @@ def handle (op : String) (args : List String) : Option String :=
     let b ← fieldsOf args "b"
     let r ← isEq dir a b
     some s!"ok {bit r}"
+  | "iseqx" => do
+    -- directives of (possibly) different types: `a.IsEquivalent(b)`
+    let x ← anyOf (← kv args "ka") (← fieldsOf args "a")
+    let y ← anyOf (← kv args "kb") (← fieldsOf args "b")
+    some s!"ok {bit (AnyDirective.isEquivalent id x y)}"
   | _ => none
 
 end Driver.Dispatch
